@@ -34,7 +34,9 @@ func NewSession(c *Client, state SMState) (*Session, error) {
 	} else {
 		s = c.Session
 		// We keep information about the previously set session, like the session ID, but we read server provided
-		// info again in case it changed between session break and resume, such as features.
+		// info again in case it changed between session break and resume, such as features. What was negotiated
+		// for the lost connection itself (TLS) is not true of the new one.
+		s.TlsEnabled = false
 		s.init()
 	}
 
